@@ -1,5 +1,5 @@
 """T-bits translator for the COMPILE-TIME (literal operand) path of the aarch64 immediate commands (C03 / C04): the text of the arms
-`Command::Ubits | Uscaled | Uslice | Urange | Usubone | Usubzero | Usubmod | Sbits | Sscaled | Sslice | CUbits | CSscaled | CUrange` of
+`Command::Ubits | Uscaled | Uslice | Ulist | Urange | Usubone | Usubzero | Usubmod | Ufields | Sbits | Sscaled | Sslice | CUbits | CSscaled | CUrange` of
 `compile_instruction` and of `static_range_check` (plugin/src/arch/aarch64/compiler.rs), with `bitmask` of plugin/src/common.rs inlined, is
 executed symbolically for every distinct command group of today's table (parameters are the table's constants) and printed into
 lean/DynasmVerif/Generated/A64Static.lean: `sg<k>_ok v` (the literal is accepted) and `sg<k>_val v` (its contribution `value << offset` to
@@ -18,7 +18,8 @@ SRC = "/repo/plugin/src/arch/aarch64/compiler.rs"
 SUPPORTED = {"Ubits": ("offset", "bitlen"), "Uscaled": ("offset", "bitlen", "shift"), "Uslice": ("offset", "bitlen", "shift"),
              "Urange": ("offset", "min", "max"), "Usubone": ("offset", "bitlen"), "Usubzero": ("offset", "bitlen"), "Usubmod": ("offset", "bitlen"),
              "Sbits": ("offset", "bitlen"), "Sscaled": ("offset", "bitlen", "shift"), "Sslice": ("offset", "bitlen", "shift"),
-             "CUbits": ("bitlen",), "CSscaled": ("bitlen", "shift"), "CUrange": ("min", "max")}
+             "CUbits": ("bitlen",), "CSscaled": ("bitlen", "shift"), "CUrange": ("min", "max"),
+             "Ufields": ("bitfields",), "Ulist": ("offset", "options")}
 
 
 class SSym(immtrans.ISym):
@@ -66,8 +67,15 @@ def translate_arm(text, helpers, chk, name, args):
         raise Untranslatable(f"{name}: no static branch")
     prelude, rest = arm[:m_if.start()], arm[m_if.start():]
     s = SSym(helpers, True)
+    lists = {}
     for p, a in zip(SUPPORTED[name], args):
-        s.env[p] = rx.Val(const(a, 8), TYPES["u8"])
+        if isinstance(a, list):
+            lists[p] = a
+            arm = arm.replace(f"{p}.len()", f"{len(a)}usize")
+        else:
+            s.env[p] = rx.Val(const(a, 8), TYPES["u8"])
+    m_if = re.search(r"\bif\b", arm)
+    prelude, rest = arm[:m_if.start()], arm[m_if.start():]
     if prelude.strip():
         for st in rx.P(rx.tokenize("{" + prelude + "}")).block()[1]:
             s.exec_stmt(st)
@@ -88,6 +96,36 @@ def translate_arm(text, helpers, chk, name, args):
         s.panic = bor(s.panic, sub.panic)
         return fold(bnot(sub.err)), res.n[0], res.n[1]
 
+    # Ufields: one field per bit of the operand, the last listed field takes bit 0
+    mf = re.match(r"if\s+let\s+Some\(\((\w+),\s*(\w+)\)\)\s*=\s*static_range_check\(value,\s*([^,]+),\s*([^,]+),\s*([^)]+)\)\?\s*\{\s*for\s*\(i,\s*&field\)\s*in\s+bitfields\.iter\(\)\.rev\(\)\.enumerate\(\)\s*\{\s*statics\.push\(\(field,\s*(.*?)\)\);\s*\}\s*\}\s*else", rest, flags=re.S)
+    if name == "Ufields":
+        if not mf:
+            raise Untranslatable("Ufields: the static branch is not the known loop over the reversed field list")
+        ok, biased, scaled = run_check(mf.group(3), mf.group(4), mf.group(5))
+        for nm, val in ((mf.group(1), biased), (mf.group(2), scaled)):
+            if nm != "_":
+                s.env[nm] = val
+        word = const(0, 32)
+        for i, field in enumerate(reversed(lists["bitfields"])):
+            s.env["i"] = rx.Val(const(i, 64), TYPES["usize"])
+            v = s.coerce(s.run(rx.parse(mf.group(6))), TYPES["u32"])
+            if field >= 32:
+                raise Untranslatable(f"Ufields: field offset {field}")
+            word = N("or", (word, N("shl", (v.n, const(field, 32)), 32)), 32)
+        return ok, fold(word), fold(s.panic)
+    # Ulist: the index of the LAST option equal to the number
+    ml = re.match(r"if\s+let\s+Some\(number\)\s*=\s*as_unsigned_number\(value\)\s*\{\s*if\s+let\s+Some\(i\)\s*=\s*options\.iter\(\)\.rposition\(\|&n\|\s*u64::from\(n\)\s*==\s*number\)\s*\{\s*statics\.push\(\((\w+),\s*i\s+as\s+u32\)\);\s*\}\s*else\s*\{\s*emit_error!\([^;]*\);\s*return\s+Err\(None\);\s*\}\s*\}\s*else", rest, flags=re.S)
+    if name == "Ulist":
+        if not ml:
+            raise Untranslatable("Ulist: the static branch is not the known rposition lookup")
+        number = rx.var("v", 64)
+        found, idx = bfalse(), const(0, 32)
+        for i, opt in enumerate(lists["options"]):
+            hit = N("eq", (const(opt, 64), number), 0)          # u64::from(n) == number
+            found = bor(found, hit)
+            idx = N("ite", (hit, const(i, 32), idx), 32)       # later matches win: rposition
+        o = fold(s.coerce(s.run(rx.parse(ml.group(1))), TYPES["u8"]).n)
+        return fold(found), fold(N("shl", (idx, const(o.k, 32)), 32)), bfalse()
     ma = re.match(r"if\s+let\s+Some\(\((\w+),\s*(\w+)\)\)\s*=\s*static_range_check\(value,\s*([^,]+),\s*([^,]+),\s*([^)]+)\)\?\s*\{\s*statics\.push\(\((\w+),\s*(.*?)\)\);\s*\}\s*else", rest, flags=re.S)
     mb = re.match(r"if\s+let\s+Some\(value\)\s*=\s*(as_unsigned_number|as_signed_number)\(value\)\s*\{\s*statics\.push\(\((\w+),\s*(.*?)\)\);\s*\}\s*else", rest, flags=re.S)
     mc = re.match(r"if\s+static_range_check\(value,\s*([^,]+),\s*([^,]+),\s*([^)]+)\)\?\.is_none\(\)\s*\{", rest, flags=re.S)
@@ -135,7 +173,7 @@ def groups_of_table():
             if key in seen:
                 continue
             seen.add(key)
-            out.append((key, [(c[0], [int(x) for x in c[1:]]) for c in g]))
+            out.append((key, [(c[0], [x if isinstance(x, list) else int(x) for x in c[1:]]) for c in g]))
     return out
 
 
